@@ -146,6 +146,16 @@ func (r *recorder) hook(point string, args ...any) {
 		}
 		sid := fmt.Sprintf("%x", args[1])
 		out := args[2].(string)
+		if c.sawGet {
+			// a second registry lookup inside one request: no step of the specification; logged
+			// as seen (the specification will refuse it) without disturbing the bookkeeping
+			tid := c.t
+			if tid == 0 {
+				tid = c.done
+			}
+			r.emit("get", "t", tid, "s", r.sidSlot[sid], "out", out)
+			return
+		}
 		r.startTokenRequest(c)
 		c.sawGet = true
 		tid := c.t
